@@ -6,6 +6,7 @@ import (
 	"os"
 	"strings"
 	"sync"
+	"sync/atomic"
 	"testing"
 	"time"
 
@@ -106,6 +107,9 @@ func stdlibUser(t *rapid.T, i int) []val.V {
 		fmt.Sprintf("(try (throw {:who %d}) (catch e (get e :who)) (finally (%strace! :fin)))", i, p),
 		fmt.Sprintf("(let (at (atom %d)) (do (swap! at + 1) (swap! at (fn (x) (* x 2))) @at))", i),
 	}
+	// a def inside a future body is local to that body: every program uses the SAME working name
+	src = append(src, fmt.Sprintf("(deref (future (do (def scratch %d) (sleep 2) (list scratch (+ scratch 1)))))", 10*(i+1)),
+		fmt.Sprintf("(let (fs (map (fn (j) (future (do (def scratch (+ %d j)) (sleep 1) scratch))) [1 2])) (map deref fs))", 100*(i+1)))
 	n := 2 + gen.Uniform(t, "nstd", len(src)-1)
 	forms := []val.V{}
 	for j := 0; j < n; j++ {
@@ -415,6 +419,49 @@ func check(c Case) pbt.Verdict {
 				}
 			}
 		}()
+		wg.Add(2)
+		var defining atomic.Int64
+		go func() { // a second writer defines NEW names whose value expression takes a while
+			defer wg.Done()
+			<-start
+			for k := int64(1); ; k++ {
+				select {
+				case <-stop:
+					return
+				default:
+				}
+				defining.Store(k)
+				if r := box.ReadEval(ctx, fmt.Sprintf("(def fresh-%d (do (sleep 1) [%d %d %d %d]))", k, k, k, k, k), e); r.Err != nil || r.Panicked {
+					report(fmt.Sprintf("writer of new names failed: %v %v", r.Err, r.PanicVal))
+					return
+				}
+			}
+		}()
+		go func() { // and a reader watches the name being defined: unbound, or entirely there
+			defer wg.Done()
+			<-start
+			for {
+				select {
+				case <-stop:
+					return
+				default:
+				}
+				k := defining.Load()
+				if k == 0 {
+					continue
+				}
+				r := box.ReadEval(ctx, fmt.Sprintf("(try fresh-%d (catch e :undefined))", k), e)
+				okv := false
+				if r.Err == nil && !r.Panicked {
+					v := val.From(r.Val)
+					okv = val.Eq(v, val.K("undefined")) || val.Eq(v, val.Vc(val.I(int(k)), val.I(int(k)), val.I(int(k)), val.I(int(k))))
+				}
+				if !okv {
+					report(fmt.Sprintf("reader saw an inconsistent shared global: fresh-%d is %s (err %v) while it was being defined for the first time", k, val.Canon(val.From(r.Val)), r.Err))
+					return
+				}
+			}
+		}()
 		go func() { // reader: a global definition is seen entirely or not at all
 			defer wg.Done()
 			<-start
@@ -460,9 +507,16 @@ func check(c Case) pbt.Verdict {
 	case <-time.After(40 * time.Second):
 		return pbt.Failf("hang", "the concurrent run did not finish within 40 s")
 	}
+	if firstBad == "" {
+		if v, ok := box.Lookup(e, "scratch"); ok {
+			firstBad = fmt.Sprintf("the working name scratch, defined only inside future bodies, is bound to %s in the shared environment afterwards", val.Canon(val.From(v)))
+		}
+	}
 	if firstBad != "" {
 		sig := "solo-vs-concurrent-differ"
-		if strings.Contains(firstBad, "inconsistent shared") {
+		if strings.Contains(firstBad, "the working name scratch") {
+			sig = "local-definition-leaked"
+		} else if strings.Contains(firstBad, "inconsistent shared") {
 			sig = "torn-global"
 		} else if strings.Contains(firstBad, "panic") {
 			sig = "panic-under-concurrency"
